@@ -230,8 +230,10 @@ CLAIMED = {
              'emulate_cycle() in modes usr/svc/fiq/mon on PMSA v6, PMSA v7, VMSA v7 and no-security-extension '
              'configurations with the MPU off and permissive-on; TLC (Trace_Step) accepts an event only if its outcome is '
              'one of the specification\'s outcome classes (completed, undef, svc, smc, dabort, hyptrap, notimpl) - a '
-             'host error has no action - and, where the step is specified, the right one.',
-        note='ARM and 32-bit Thumb words are sampled (cube representatives are added once the C06/C07 partition exists); '
+             'host error has no action - and, where the step is specified, the right one. MC_Decode (TLC): StepF itself is total '
+             'with an allowed outcome and a well-typed post-state on a skeleton holding every value of the class-selecting fields.',
+        note='ARM and 32-bit Thumb words are sampled (uniform, pattern-filled, and class-preserving mutations of the 581 words of '
+             'the repository tests; the exhaustive class partition is exercised by C06/C07 with the same hosterror clause); '
              'NotImplementedError is accepted from any mock hook.',
         technique='TLA+ outcome-class trace specification + exhaustive enumeration of the 16-bit space',
         ref='DESIGN.md §4 C18'),
@@ -241,7 +243,8 @@ CLAIMED = {
              'with SPSR.M = User - is evaluated by TLC on the implementation\'s own pre/post state for all 2^16 16-bit '
              'Thumb words, random/pattern ARM and Thumb-32 words and random programs started in User mode, secure and '
              'non-secure, MPU off/on, on four configurations. It needs no per-instruction oracle, so it covers '
-             'unspecified and UNPREDICTABLE encodings too.',
+             'unspecified and UNPREDICTABLE encodings too. MC_Decode (TLC): every exactly specified step of the specification '
+             'itself satisfies UserConfined from User mode on the decode skeleton (Props!SpecStepOK).',
         note='32-bit words are sampled; unprivileged load/store variants against privileged-only regions are part of C14.',
         technique='TLA+ confinement invariant evaluated by TLC trace validation on every User-mode event',
         ref='DESIGN.md §4 C19'),
